@@ -178,7 +178,7 @@ func init() {
 			tok = tok[:width]
 		}
 		if tok != "" && !scanAlphabet(tok) {
-			return judgeScan(tok, x.mode, r.Err, r.D[0])
+			return judgeScan(tok, x.mode, r.Err, r.D[0], op.int(0) == 0 && width < 0)
 		}
 		if !scanAlphabet(tok) {
 			return "" // the token is cut by fmt's rules, not by white space: not judged
@@ -309,15 +309,32 @@ func scanModel(tok string) (text string, lit ref.Literal, mustErr bool) {
 // Scan's own alphabet (see scanModel): an error return is always acceptable
 // (what follows the consumed part is none of Scan's business, and package fmt
 // may complain about it), a value must be the reference value.
-func judgeScan(tok string, mode uint8, err error, got D) string {
+func judgeScan(tok string, mode uint8, err error, got D, strictFollow bool) string {
 	text, lit, mustErr := scanModel(tok)
 	if err != nil {
+		// strictFollow: nobody but Scan itself can have produced the error (a
+		// direct call, or Sscan with one operand, which does not mind unread
+		// input). A complete well-formed numeral followed by a character
+		// outside Scan's alphabet must then be returned: what follows the
+		// numeral is not Scan's business.
+		if strictFollow && !mustErr && len(text) < len(tok) && lit.Status != ref.LitInvalid && text != "" && !isWordStart(text) {
+			if s := judgeParse(text, lit, mode, err, false, got, false); s != "" {
+				return fmt.Sprintf("%s (Scan was given %.60q: the numeral is followed by %q)", s, tok, tok[len(text):])
+			}
+		}
 		return ""
 	}
 	if mustErr {
 		return fmt.Sprintf("Scan accepted %.60q as %s; it is neither a numeral nor Inf/NaN", tok, NumOf(got))
 	}
 	return judgeParse(text, lit, mode, nil, true, got, false)
+}
+
+// isWordStart reports whether a scanned prefix is a special word rather than
+// a numeral.
+func isWordStart(text string) bool {
+	t := strings.TrimLeft(text, "+-")
+	return t != "" && (t[0] == 'i' || t[0] == 'I' || t[0] == 'n' || t[0] == 'N')
 }
 
 // ---------- C06: shortest text ----------
@@ -569,7 +586,7 @@ func init() {
 			if r.B[0] {
 				return "" // a read error was injected: not judged for such tokens
 			}
-			return judgeScan(tok, x.mode, r.Err, r.D[0])
+			return judgeScan(tok, x.mode, r.Err, r.D[0], true)
 		}
 		if tok == "" {
 			if r.Err == nil {
